@@ -5,7 +5,7 @@
     for native cases the priorities are the draws of the modelled generator.
     [spec_check]: (independent of the tree model) every observed tree is heap-ordered, its in-order
     priorities and collected values are those of the list-of-lists machine that carries (priority, value)
-    pairs — priorities are only moved — and, when the priorities of a treap are pairwise distinct, its
+    pairs — priorities are only moved (injected-priority cases) — and, when the priorities of a treap are pairwise distinct, its
     shape is the Cartesian tree of its priority sequence. *)
 From Coq Require Import ZArith List Bool.
 From RlibV Require Import Common.Batch C03.Model C03.Corr C16.Model.
@@ -49,11 +49,15 @@ Definition model_check (c : case) : bool :=
 Fixpoint nodupb (l : list Z) : bool :=
   match l with [] => true | x :: xs => negb (existsb (Z.eqb x) xs) && nodupb xs end.
 
-(** one observed treap against the (priority, value) list the specification machine holds for it *)
-Definition tree_ok {T} (t : @tree T) (coll : list Z) (want : list pv) : bool :=
-  let ps := map fst want in
+(** one observed treap against the (priority, value) list the specification machine holds for it.
+    In native cases the priorities fed to the specification machine are only the plugin's prediction of the
+    generator's draws; a different (still lawful) generator is not a violation of the property, so there the
+    in-order priorities are taken from the observation and only their number is compared. *)
+Definition tree_ok {T} (native : bool) (t : @tree T) (coll : list Z) (want : list pv) : bool :=
+  let ps := if native then map fst (inorder t) else map fst want in
   heapb t
   && leqb Z.eqb (map fst (inorder t)) ps
+  && Nat.eqb (length (inorder t)) (length want)
   && leqb Z.eqb coll (map snd want)
   && (if nodupb ps then tree_eqb (fun _ _ => true) (tmap (fun _ => tt) t) (cart (map (fun p => (p, tt)) ps)) else true).
 
@@ -66,15 +70,15 @@ Fixpoint all3 {X Y W} (f : X -> Y -> W -> bool) (a : list X) (b : list Y) (c : l
 
 Definition spec_check (c : case) : bool :=
   match c with
-  | CaseA ops ps _ obs =>
+  | CaseA ops ps nat obs =>
       match prun md0_act [] ps ops with
       | None => true
-      | Some want => match obs with Some (ts, cs) => all3 tree_ok ts cs want | None => false end
+      | Some want => match obs with Some (ts, cs) => all3 (tree_ok nat) ts cs want | None => false end
       end
-  | CaseB ops ps _ obs =>
+  | CaseB ops ps nat obs =>
       match prun amod_act [] ps ops with
       | None => true
-      | Some want => match obs with Some (ts, cs) => all3 tree_ok ts cs want | None => false end
+      | Some want => match obs with Some (ts, cs) => all3 (tree_ok nat) ts cs want | None => false end
       end
   end.
 
